@@ -153,7 +153,10 @@ def chain_tables_tie(fams, dumps, res):
         st = dumps[i]['bash']
         if 'TABLES' not in st:
             continue
-        tsx = sexp.parse(st['TABLES'])
+        full = t2.with_subaccepting(st['TABLES'], st.get('MIN'))
+        if full is None:
+            continue
+        tsx = sexp.parse(full)
         subs = [x for x in tsx if isinstance(x, list) and x and x[0] == 'subwords'][0]
         if len(subs) != 2:
             res.violations.append(report.Violation('C12: the family grammar does not have exactly one within-word automaton',
@@ -203,7 +206,7 @@ def run(ctx, res):
     fams = family(ctx)
     nfam = len(fams)
     fams += random_chains(ctx, 40 if ctx['tier'] == 'quick' else 600)
-    dumps = impl.dump(exe, [f.text.encode() for f in fams], ['tables', 'script'], ['bash'])
+    dumps = impl.dump(exe, [f.text.encode() for f in fams], ['min', 'tables', 'script'], ['bash'])
     res.rule = ('exhaustive family: every vs <= {a,ab,abc,abcd,b,ba,abd} with 2..4 values (91 sets), grammar cmd --opt=(vs) next; '
                 'typed text = every prefix of every value (values included), as the last complete word and as the word under the cursor, '
                 'COMP_WORDBREAKS alternating default/empty (both in the thorough tier); then random chains over other alphabets/prefix '
